@@ -73,8 +73,14 @@ package data
 //@     modifies pbPoints
 //@     decreases len(*ps) - rangeindex
 
+// Decoding is a deterministic function of the payload bytes (assumed: proto.Unmarshal is modelled as yielding an
+// arbitrary message; pbOK/pbN/pbPt name the outcome so that callers can speak about "the decoded batch").
+//@ seq func pbOK(b []byte) bool
+//@ seq func pbN(b []byte) int
+//@ seq func pbPt(b []byte, k int) Point
 //@ func PbDecodePoints
 //@   props C12
+//@   local data []byte#1
 //@   local pbPoints *pb.Points#1
 //@   local ret []data.Point#1
 //@   loop 1:
@@ -85,6 +91,7 @@ package data
 //@     modifies ret
 //@     decreases len(pbPoints.Points) - rangeindex
 //@   ensures [C12] res1 == nil ==> isfresh(res0)
+//@   assume-ensures (res1 == nil <==> pbOK(data)) && (res1 == nil ==> len(res0) == pbN(data) && (forall k int :: 0 <= k && k < len(res0) ==> res0[k] == pbPt(data, k)))
 
 //@ func PbDecodeSerialPoints
 //@   props C12, C17
